@@ -119,7 +119,7 @@ func TestC25(t *testing.T) {
 	for _, ops := range corpus() {
 		emit(ops, "corpus", true)
 	}
-	n := r.N(60, 700)
+	n := r.N(50, 700)
 	if os.Getenv("VERIF_C25_REALONLY") != "" { // debugging aid: only the real-time histories
 		n = 0
 	}
